@@ -138,6 +138,7 @@ static void *g_data = nullptr;
 static int g_region_idx = -1; // index of the region within the op
 static int64_t g_countdown = INT64_MAX;
 static int g_next = -1; // member chosen by the yielding member
+static bool g_blocking_yield = false; // the yield in progress is a barrier / lock wait, not a preemption
 static uint64_t g_steps_total = 0; // steps in regions, whole op
 static uint64_t g_step_limit = 0;
 static uint64_t g_serial_steps = 0;
@@ -1099,6 +1100,7 @@ static void run_region(void (*fn)(void *), void *data, int T, int requested)
         int prev = -1;
         int64_t prev_at = 0;
         bool prev_finished = true;
+        bool prev_blocked = false;
         uint64_t started_unfinished = 0;
         for (;;)
         {
@@ -1107,6 +1109,17 @@ static void run_region(void (*fn)(void *), void *data, int T, int requested)
             {
                 next = g_next;
                 g_next = -1;
+                if (g_cfg.strategy == ST_REPLAY && prev_blocked && g_rp_next < g_cfg.replay.size())
+                {
+                    // a lock wait names the holder itself; the recorded entry of this wait is consumed with it
+                    const Switch s = g_cfg.replay[g_rp_next];
+                    if (s.region == g_region_idx && s.member == prev && s.at == -2)
+                    {
+                        g_rp_next++;
+                        if (s.next >= 0 && s.next < g_T && runnable(g_members[s.next]))
+                            next = s.next;
+                    }
+                }
             }
             else
                 next = pick_next(prev, prev_finished);
@@ -1124,7 +1137,8 @@ static void run_region(void (*fn)(void *), void *data, int T, int requested)
                 g_stats.deadlock = true;
                 fatal("deadlock: no runnable member");
             }
-            record_decision(prev, prev_finished ? -1 : prev_at, next);
+            // at >= 0: preempted after that many steps; -1: finished; -2: blocked (barrier / lock wait)
+            record_decision(prev, prev_finished ? -1 : prev_blocked ? -2 : prev_at, next);
             if (prev >= 0 && !prev_finished && next != prev)
                 g_stats.switches++;
             Member *m = &g_members[next];
@@ -1147,6 +1161,8 @@ static void run_region(void (*fn)(void *), void *data, int T, int requested)
             prev = m->idx;
             prev_at = m->local;
             prev_finished = (m->st == M_DONE);
+            prev_blocked = g_blocking_yield;
+            g_blocking_yield = false;
             if (prev_finished)
                 started_unfinished--;
             if (m->st == M_WAIT_BARRIER)
@@ -1331,6 +1347,7 @@ extern "C"
         step();
         g_cur->st = M_WAIT_BARRIER;
         // the last arriver releases everybody (done by the scheduler loop)
+        g_blocking_yield = true;
         yield_to(-1);
     }
 
@@ -1356,6 +1373,7 @@ extern "C"
                     cand[n++] = i;
             if (n == 0)
                 fatal("deadlock: lock holder not runnable");
+            g_blocking_yield = true;
             yield_to(L.holder >= 0 && runnable(g_members[L.holder]) ? L.holder : cand[0]);
         }
     }
